@@ -109,7 +109,7 @@ def phasePolicy : AccField → Policy AccFn
       .published [.muxerSegmentMPEGTS_finalize, .muxerSegmentMPEGTS_writeH264, .muxerSegmentMPEGTS_writeMPEG4Audio]
   | .muxerSegmentMPEGTS_audioAUCount | .muxerSegmentMPEGTS_bw | .muxerSegmentMPEGTS_size
   | .muxerSegmentMPEGTS_storagePart => .producerOnly
-  | .muxerGap_duration => .published []
+  | .muxerGap_duration | .muxerGap_id => .published []   -- id: added by the F7 repair, same life cycle as duration
   /- ── pkg/storage, RAM ── -/
   -- Finalize(): called by segment.finalize on the open segment's file; the file's Reader/Size are reached by
   -- handlers only through a published segment
